@@ -91,6 +91,35 @@ def model_result(cfg, pred, ref):
     return ("ok", o[1]) if o[0] == 0 else ("err", o[1])
 
 
+def sparse_map(a):
+    """non-zero voxels in C order: [[coords], label]"""
+    a = np.asarray(a)
+    return [[list(map(int, c)), int(a[tuple(c)])] for c in np.argwhere(a != 0)]
+
+
+def semantic_model_results(items):
+    """items: (cfg, semantic pred, semantic ref).  The WHOLE semantic path inside the model (Model/Semantic.semantic_pipeline:
+    connected components, then the instance pipeline); only for configurations that need no geometric metric values
+    (threshold matcher on IoU/Dice, instance metrics among IoU/Dice/RVD).  Returns ('ok', result)/('err', code)/('skip', why)."""
+    out = [None] * len(items)
+    batch, where = [], []
+    for i, (cfg, pred, ref) in enumerate(items):
+        ims = cfg.get("imetrics", ["DSC", "IOU", "ASSD", "RVD"])
+        if (cfg.get("matcher") or "naive") != "naive" or cfg.get("mmetric", "IOU") not in ("IOU", "DSC") \
+                or any(m not in ("IOU", "DSC", "RVD") for m in ims) or cfg.get("dmetric") not in (None, "IOU", "DSC", "RVD"):
+            out[i] = ("skip", "needs geometric metric values")
+            continue
+        if pred.min() < 0 or ref.min() < 0:
+            out[i] = ("skip", "negative labels")
+            continue
+        bk = cfg.get("backend")
+        batch.append([enc_cfg(cfg), [[], [], []], [] if bk is None else [0 if bk == "cc3d" else 1], pred.ndim, sparse_map(pred), sparse_map(ref)])
+        where.append(i)
+    for i, o in zip(where, engine_run(103, batch) if batch else []):
+        out[i] = ("ok", o[1]) if o[0] == 0 else ("err", o[1])
+    return out
+
+
 def compare(cfg, r, mo):
     """r: impl.canon_result dict, mo: model result sx. Returns list of difference strings (counts/lists exact, aggregates 2^-30)."""
     diffs = []
